@@ -19,24 +19,38 @@ package ante
 //@   loop 0 invariant packetMsgs > 0 <==> (exists j int :: 0 <= j && j < $i && isType(msgs[j], "*github.com/initia-labs/OPinit/x/opchild/types.MsgFinalizeTokenDeposit"))
 //@   assigns \everything
 
-// CombinedMinGasPrices and computeRequiredFees are used by contract in the checker below; their own bodies
-// (coin-list algebra of the SDK) are verified separately against the A-COIN model where listed in
-// /verif/spec/properties.json, otherwise these two contracts are assumptions reported in the evidence.
+// Coin lists are related to their "amount of a denom" view by dcValid / cValid (what the SDK's Validate and
+// constructors guarantee: distinct denoms, AmountOf finds the entry or yields zero; A-COIN, see /verif/govc/intrinsics_coin.go).
+// Prices (LegacyDec) are 18-decimal fixed point numbers, encoded as value * 10^18.
 //@ func CombinedMinGasPrices
-//@   opt trusted
-//@   ensures r == combinedMin(minGasPrices, configMinGasPrices)
+//@   assumes dcValid(minGasPrices) && dcValid(configMinGasPrices)                                     // node config and chain params hold validated price lists
+//@   ensures dcValid(r)
+//@   ensures forall d bytes :: dcAmt(r, d) == (dcAmt(old(minGasPrices), d) >= dcAmt(configMinGasPrices, d) ? dcAmt(old(minGasPrices), d) : dcAmt(configMinGasPrices, d))   // C20: per_denom_the_larger_of_node_and_chain_price
+//@   loop 0 invariant 0 <= $i && $i <= len(configMinGasPrices) && dcValid(minGasPrices)
+//@   loop 0 invariant forall j int :: 0 <= j && j < $i ==> dcAmt(minGasPrices, configMinGasPrices[j].Denom) ==
+//@        (dcAmt(old(minGasPrices), configMinGasPrices[j].Denom) >= configMinGasPrices[j].Amount ? dcAmt(old(minGasPrices), configMinGasPrices[j].Denom) : configMinGasPrices[j].Amount)
+//@   loop 0 invariant forall d bytes :: (forall j int :: 0 <= j && j < $i ==> configMinGasPrices[j].Denom != d) ==> dcAmt(minGasPrices, d) == dcAmt(old(minGasPrices), d)
 //@   assigns \nothing
 
 //@ func computeRequiredFees
-//@   opt trusted
-//@   ensures r == requiredFees(gas, minGasPrices)
+//@   assumes dcValid(minGasPrices)
+//@   ensures cValid(r)
+//@   ensures forall d bytes :: cAmt(r, d) == feeFor(gas, dcAmt(minGasPrices, d))                       // C20: required_fee_is_gas_times_price_rounded_up
+//@   loop 0 invariant 0 <= $i && $i <= len(minGasPrices) && len(requiredFees) == len(minGasPrices)
+//@   loop 0 invariant forall j int :: 0 <= j && j < $i ==> requiredFees[j].Denom == minGasPrices[j].Denom && requiredFees[j].Amount == feeFor(gas, minGasPrices[j].Amount)
 //@   assigns \nothing
 
 //@ func (MempoolFeeChecker) CheckTxFeeWithMinGasPrices
-//@   let floor := combinedMin($nodeMinGasPrices, val(Params).MinGasPrices)
+//@   let node := $nodeMinGasPrices
+//@   let chain := val(Params).MinGasPrices
+//@   let fee := txFee(tx)
+//@   let gas := txGas(tx)
+//@   assumes dcValid(node) && (Params != None ==> dcValid(chain)) && cValid(fee)                      // A-COIN: node config, chain params and the tx fee are validated coin lists
 //@   ensures !$isCheckTx && implements(tx, "github.com/cosmos/cosmos-sdk/types.FeeTx") ==> err == nil                              // C20: nothing_enforced_outside_checking
-//@   ensures $isCheckTx && err == nil ==> Params != None && (decCoinsIsZero(floor) || coinsIsAnyGTE(txFee(tx), requiredFees(txGas(tx), floor)))   // C20: admitted_only_with_sufficient_fee_in_some_denom
-//@   ensures $isCheckTx && Params != None && implements(tx, "github.com/cosmos/cosmos-sdk/types.FeeTx") && decCoinsIsZero(floor) ==> err == nil   // C20: zero_floors_admit_any_fee
-//@   ensures $isCheckTx && Params != None && implements(tx, "github.com/cosmos/cosmos-sdk/types.FeeTx") && coinsIsAnyGTE(txFee(tx), requiredFees(txGas(tx), floor)) ==> err == nil   // C20: sufficient_fee_is_admitted
-//@   ensures err == nil ==> ret0 == txFee(tx) && ret1 == 1
+//@   ensures $isCheckTx && err == nil ==> Params != None && ((forall d bytes :: dcAmt(node, d) == 0 && dcAmt(chain, d) == 0)
+//@        || (exists d bytes :: (dcAmt(node, d) > 0 || dcAmt(chain, d) > 0) && cAmt(fee, d) >= feeFor(gas, (dcAmt(node, d) >= dcAmt(chain, d) ? dcAmt(node, d) : dcAmt(chain, d)))))   // C20: admitted_only_with_gas_times_the_larger_price_in_some_denom
+//@   ensures $isCheckTx && Params != None && implements(tx, "github.com/cosmos/cosmos-sdk/types.FeeTx") && (forall d bytes :: dcAmt(node, d) == 0 && dcAmt(chain, d) == 0) ==> err == nil   // C20: zero_floors_admit_any_fee
+//@   ensures $isCheckTx && Params != None && implements(tx, "github.com/cosmos/cosmos-sdk/types.FeeTx") && gas > 0
+//@        && (exists d bytes :: (dcAmt(node, d) > 0 || dcAmt(chain, d) > 0) && cAmt(fee, d) >= feeFor(gas, (dcAmt(node, d) >= dcAmt(chain, d) ? dcAmt(node, d) : dcAmt(chain, d)))) ==> err == nil   // C20: sufficient_fee_in_one_denom_is_admitted
+//@   ensures err == nil ==> ret0 == fee && ret1 == 1
 //@   assigns \nothing
